@@ -67,7 +67,7 @@ def replay(w, ctx):
 
 
 def floors(m, tier):
-    need = 60 if tier == 'quick' else 1200
+    need = 60 if tier == 'quick' else 500
     out = []
     for crit in CR:
         n = m['cover'].get('discriminating_' + crit, 0)
